@@ -85,7 +85,8 @@ def ctc_classes(ops, shapes=SHAPES):
     assoc = tuple(o for o in ("AND", "OR", "XOR") if o in ops)
     out += [("ctc:chain7-20", inject.inj_ctc_chain(assoc)), ("ctc:chain17-70", inject.inj_ctc_chain(assoc, (17, 70))),
             ("ctc:wide11-15", inject.inj_ctc_wide(tuple(o for o in ("AND", "OR", "IMPLIES") if o in ops))),
-            ("ctc:duplicated", inject.inj_dup_ctc)]
+            ("ctc:duplicated", inject.inj_dup_ctc), ("ctc:shared-nodes", inject.inj_shared_nodes),
+            ("ctc:duplicate-names", inject.inj_dup_ctc_names)]
     return out
 
 
@@ -124,9 +125,11 @@ class UVL(Fmt):
         c += [(t, inject.inj_attr(t)) for t in ("attr:int", "attr:float", "attr:str", "attr:bool", "attr:none",
                                                  "attr:list", "attr:list-with-bool", "attr:nested-list", "attr:nested-map",
                                                  "attr:empty-list", "attr:float-many-digits", "attr:big-int",
-                                                 "attr:zero-false", "attr:empty-map")]
+                                                 "attr:zero-false", "attr:empty-map", "attr:nested-map-key-abstract",
+                                                 "attr:map-valueless-keys")]
         c += [("attr:many", inject.inj_attr_many), ("attr:name-needs-quote", inject.inj_attr_name("unit cost")),
-              ("attr:name-keyword", inject.inj_attr_name("mandatory"))]
+              ("attr:name-keyword", inject.inj_attr_name("mandatory")), ("attr:null-value", inject.inj_attr_null),
+              ("attr:same-list-value", inject.inj_same_list_value), ("name:strip-twin", inject.inj_strip_twin)]
         c += ctc_classes(LOG7)
         c += [("ctc:cmp:" + o, inject.inj_ctc_uvl("cmp:" + o)) for o in S.COMPARE]
         c += [("ctc:arith:" + o, inject.inj_ctc_uvl("arith:" + o)) for o in S.ARITH]
@@ -182,9 +185,11 @@ class JSONF(Fmt):
                                                  "attr:list", "attr:list-with-bool", "attr:nested-list", "attr:nested-map",
                                                  "attr:str-empty", "attr:str-squote", "attr:str-dquote",
                                                  "attr:empty-list", "attr:float-many-digits", "attr:big-int",
-                                                 "attr:zero-false", "attr:empty-map")]
+                                                 "attr:zero-false", "attr:empty-map", "attr:nested-map-key-abstract",
+                                                 "attr:map-valueless-keys")]
         c += [("attr:many", inject.inj_attr_many), ("attr:name-needs-quote", inject.inj_attr_name("unit cost")),
-              ("attr:name-unicode", inject.inj_attr_name("coût"))]
+              ("attr:name-unicode", inject.inj_attr_name("coût")), ("attr:null-value", inject.inj_attr_null),
+              ("attr:same-list-value", inject.inj_same_list_value), ("name:strip-twin", inject.inj_strip_twin)]
         c += ctc_classes(LOG8)
         c += [("ctc:name-unicode", inject.inj_ctc_name("règle №1")), ("ctc:name-quote", inject.inj_ctc_name('say "x"'))]
         for t in inject.NAME_CLASSES:
@@ -212,9 +217,16 @@ def afm_case_twin(spec, r):
     b["name"] = twin
     for c in spec["ctcs"]:
         c["ast"] = inject._subst(c["ast"], old, twin)
-    other = feats[0]["name"]
+    rest = [f["name"] for f in feats[1:] if f["name"] not in (a["name"], twin)]
+    other = r.choice(rest) if rest else feats[0]["name"]
     spec["ctcs"].append({"name": "t0", "ast": ["REQUIRES", a["name"], other]})
     spec["ctcs"].append({"name": "t1", "ast": ["REQUIRES", twin, other]})
+    x, t, o = a["name"], twin, other
+    crossed = [["AND", ["IMPLIES", x, o], ["IMPLIES", o, t]], ["AND", ["IMPLIES", o, x], ["IMPLIES", t, o]],
+               ["OR", ["AND", x, o], ["AND", o, t]], ["IMPLIES", ["OR", x, t], o],
+               ["AND", ["IMPLIES", x, o], ["IMPLIES", t, o]]]
+    for k, c in enumerate(r.sample(crossed, 2)):
+        spec["ctcs"].append({"name": f"x{k}", "ast": c})
     return spec
 
 
@@ -225,7 +237,8 @@ class AFM(Fmt):
     def classes(self):
         c = list(REL_COMMON) + list(REL_CARD) + list(REL_MULTI)
         c += [("attr:afm-int-range", inject.inj_afm_attr("int-range")), ("attr:afm-two-ranges", inject.inj_afm_attr("two-ranges")),
-              ("attr:afm-enum", inject.inj_afm_attr("enum")), ("attr:afm-enum-strings", inject.inj_afm_attr_strings)]
+              ("attr:afm-enum", inject.inj_afm_attr("enum")), ("attr:afm-enum-strings", inject.inj_afm_attr_strings),
+              ("attr:afm-same-domain", inject.inj_afm_same_domain)]
         c += ctc_classes(LOG7)
         c.append(("name:afm-word", inject.inj_rename("name:afm-word")))
         c.append(("name:afm-word-root", inject.inj_rename("name:afm-word", where="root")))
@@ -247,6 +260,7 @@ class FIDE(Fmt):
         c.append(("name:root-space", inject.inj_rename("name:space", where="root")))
         c.append(("name:case-twin", inject.inj_case_twin))
         c.append(("name:nfc-twin", inject.inj_nfc_twin))
+        c.append(("name:strip-twin", inject.inj_strip_twin))
         return c
 
 
@@ -257,7 +271,7 @@ class GLENCOE(Fmt):
     def classes(self):
         c = list(REL_COMMON) + list(REL_CARD)
         c += [("rel:" + k + "+mandatory", inject.inj_group_plus_mandatory(k)) for k in ("alt", "or", "mutex", "card")]
-        c += ctc_classes(LOG8)
+        c += [x for x in ctc_classes(LOG8) if x[0] != "ctc:duplicate-names"]   # the format keys constraints by name (C08: "distinct names")
         c += [("ctc:name-unicode", inject.inj_ctc_name("règle №1"))]
         for t in inject.NAME_CLASSES:
             if t != "name:afm-word":
@@ -265,6 +279,7 @@ class GLENCOE(Fmt):
         c.append(("name:root-space", inject.inj_rename("name:space", where="root")))
         c.append(("name:case-twin", inject.inj_case_twin))
         c.append(("name:nfc-twin", inject.inj_nfc_twin))
+        c.append(("name:strip-twin", inject.inj_strip_twin))
         return c
 
 
@@ -368,7 +383,7 @@ def history_write_after_edit(fmt, W, m, spec, workdir):
     ast_edit = None
     logical_ctcs = [k for k, c in enumerate(spec.get("ctcs", [])) if isinstance(c["ast"], list) and S.is_logical_ast(c["ast"])
                     and len(S.ast_names(c["ast"])) <= 12]
-    if logical_ctcs:
+    if logical_ctcs and not spec.get("share_nodes"):   # (an edit of a shared node is an edit of several constraints)
         # an expression tree edited in place (node attributes assigned directly, no setter, same AST object)
         import random as _random
         rr = _random.Random(S.digest(spec))
@@ -424,6 +439,9 @@ def history_write_after_edit(fmt, W, m, spec, workdir):
     return None
 
 
+COUNTS = {}
+
+
 def judge(fmt, spec, cycles, workdir):
     """Return None when the case held, else (clause, symptom, detail)."""
     s0 = S.norm_spec(spec)
@@ -466,7 +484,68 @@ def judge(fmt, spec, cycles, workdir):
     for n in range(fmt.text_fix_from, len(res["texts"])):
         if res["texts"][n] != res["texts"][n - 1]:
             return ("further-cycles-change-nothing", "text-drift", f"text {n + 1} differs from text {n}")
+    if fmt.attrs and sum(len(f.get("attrs", [])) for f in S.features(s0["root"])) >= 2:
+        v = history_edit_after_read(fmt, spec, workdir)
+        if v:
+            return v
+        if v is False:
+            COUNTS["edit-after-read"] = COUNTS.get("edit-after-read", 0) + 1
     return None
+
+
+def history_edit_after_read(fmt, spec, workdir):
+    """History: write, read, then edit ONE attribute of the model the reader returned in place (a value appended to
+    its list/map value, an element/range added to its domain), write that model, read it back: exactly that attribute
+    changed.  (Objects shared between attributes of the returned model make the edit show up elsewhere.)"""
+    import copy
+    from flamapy.metamodels.fm_metamodel.models import Range
+    W, R = fmt.rw()
+    p1 = os.path.join(workdir, "ear1." + fmt.ext)
+    p2 = os.path.join(workdir, "ear2." + fmt.ext)
+    try:
+        W(p1, S.build(spec)).transform()
+        m1 = R(p1).transform()
+    except Exception:  # noqa: BLE001 - judged by the cycles
+        return None
+    exp = copy.deepcopy(S.observe(m1))
+    target = None
+    stack = [(m1.root, exp["root"])]
+    while stack and target is None:
+        f, fo = stack.pop()
+        for a, ao in zip(f.get_attributes(), fo.get("attrs", [])):
+            if fmt.attrs == "afm" and a.domain is not None:
+                if a.domain.get_element_list():
+                    a.domain.add_element('"edited"')
+                    ao["domain"]["elements"].append('"edited"')
+                else:
+                    a.domain.add_range(Range(1000, 2000))
+                    ao["domain"]["ranges"].append([1000, 2000])
+                target = (f.name, a.name)
+                break
+            if fmt.attrs == "value" and isinstance(a.default_value, list):
+                a.default_value.append(7)
+                ao["value"].append(7)
+                target = (f.name, a.name)
+                break
+            if fmt.attrs == "value" and isinstance(a.default_value, dict):
+                a.default_value["edited"] = 7
+                ao["value"]["edited"] = 7
+                target = (f.name, a.name)
+                break
+        for rel, ro in zip(reversed(f.relations), reversed(fo.get("rels", []))):
+            for c, co in zip(reversed(rel.children), reversed(ro["children"])):
+                stack.append((c, co))
+    if target is None:
+        return None
+    try:
+        W(p2, m1).transform()
+        o2 = S.observe(R(p2).transform())
+    except Exception as e:  # noqa: BLE001
+        return ("edit-after-read", f"raises:{type(e).__name__}", f"after editing {target}: {str(e)[:160]}")
+    if fmt.proj_feature(o2["root"]) != fmt.proj_feature(exp["root"]):
+        return ("edit-after-read", "edit-shows-elsewhere", f"one attribute ({target[0]}.{target[1]}) of the model read was "
+                f"edited in place; after write/read: {first_obs_diff(exp['root'], o2['root'])}")
+    return False
 
 
 def brief(x, n=600):
